@@ -75,6 +75,12 @@ Lemma ext_remove_from_class a b g : ext a b -> ext a (remove_from_class b g).
 Proof. intro H. now apply (ext_same a b). Qed.
 Lemma ext_new_class a b : ext a b -> ext a (new_class b).
 Proof. intro H. now apply (ext_same a b). Qed.
+Lemma ext_set_evq a b q : ext a b -> ext a (set_evq b q).
+Proof. intro H. now apply (ext_same a b). Qed.
+Lemma ext_ev_post a b w d : ext a b -> ext a (ev_post b w d).
+Proof. intro H. now apply (ext_same a b). Qed.
+Lemma ext_ev_cancel a b w : ext a b -> ext a (ev_cancel b w).
+Proof. intro H. now apply (ext_same a b). Qed.
 
 Lemma ext_resolve a b w v : ext a b -> ext a (resolve b w v).
 Proof.
@@ -99,7 +105,9 @@ Section Dead.
       | apply ext_new_thread
       | apply ext_upd; [|first [left; reflexivity | right; reflexivity]]
       | apply ext_set_cur | apply ext_set_log | apply ext_set_etab | apply ext_set_depth
-      | apply ext_set_clock | apply ext_set_objs | apply ext_remove_from_class | apply ext_new_class ].
+      | apply ext_set_clock | apply ext_set_objs | apply ext_remove_from_class | apply ext_new_class
+      | apply ext_set_evq | apply ext_ev_post | apply ext_ev_cancel
+      | match goal with |- ext _ (match ?v with _ => _ end) => destruct v end ].
 
   Ltac ex_step IH :=
     match goal with
@@ -109,6 +117,7 @@ Section Dead.
     | |- Ex _ (Some (_, _)) => cbn [Ex]; ext_solve
     | |- Ex _ (go P _ _ _ (match ?v with _ => _ end)) => destruct v
     | |- Ex _ (match go P _ _ _ (match ?v with _ => _ end) with _ => _ end) => destruct v
+    | |- Ex _ (match go P _ _ _ (ev_cancel (match ?v with _ => _ end) _) with _ => _ end) => destruct v
     | |- Ex ?s0 (go P ?f ?k ?x ?e) =>
         let Ha := fresh "Ha" in let Hb := fresh "Hb" in
         assert (Ha : ext s0 e) by ext_solve;
@@ -129,7 +138,7 @@ Section Dead.
   Lemma Ex_go : forall f k x s, Ex s (go P f k x s).
   Proof.
     induction f as [|f IH]; intros k x s; [exact I|].
-    destruct k; cbn [go]; repeat ex_step IH.
+    destruct k; cbn [go]; cbv zeta; repeat ex_step IH.
   Qed.
 
   (* a destroyed thread stays destroyed, whatever runs *)
@@ -166,12 +175,12 @@ Section Dead.
         - eapply destroyed_stays_destroyed; eauto.
         - injection E2 as <- <-. split; [exact Hw1|]. split; [lia|exact D1]. }
       destruct H2 as (Hw2 & L2 & D2).
-      set (s2b := match vst (th s t) with
+      set (s2b := ev_cancel match vst (th s t) with
                   | VIdling => resolve (remove_from_class s2 (grp (th s t))) t RNil
                   | _ => remove_from_class s2 (grp (th s t))
-                  end) in *.
+                  end t) in *.
       assert (H2b : ext s2 s2b).
-      { unfold s2b. destruct (vst (th s t)); try apply ext_resolve; apply ext_remove_from_class; apply ext_refl. }
+      { unfold s2b. apply ext_ev_cancel. destruct (vst (th s t)); try apply ext_resolve; apply ext_remove_from_class; apply ext_refl. }
       destruct (H2b Hw2) as (Hw2' & L2b & D2b).
       destruct (go P f (KDtor (LThr t)) x2 s2b) as [[x3 s3]|] eqn:E3; [|discriminate].
       injection H as <- <-.
@@ -315,10 +324,10 @@ Section WaitThread.
   Theorem delete_runs_the_destructor_on_a_destroyed_thread f t x s r :
     WF s -> alive (th s t) = true -> go P (S f) (KKill t) x s = Some r ->
     exists x2 s2 x3 s3,
-      let sd := match vst (th s t) with
+      let sd := ev_cancel match vst (th s t) with
                 | VIdling => resolve (remove_from_class s2 (grp (th s t))) t RNil
                 | _ => remove_from_class s2 (grp (th s t))
-                end in
+                end t in
       WF sd /\ alive (th sd t) = false /\
       go P f (KDtor (LThr t)) x2 sd = Some (x3, s3) /\
       r = (x3, if opt_eqb (cur s3) t then set_cur s3 None else s3).
@@ -340,12 +349,12 @@ Section WaitThread.
       - eapply (destroyed_stays_destroyed P); eauto.
       - injection E2 as <- <-. split; [exact Hw1|]. split; [lia|exact D1]. }
     destruct H2 as (Hw2 & L2 & D2).
-    set (sd := match vst (th s t) with
+    set (sd := ev_cancel match vst (th s t) with
                | VIdling => resolve (remove_from_class s2 (grp (th s t))) t RNil
                | _ => remove_from_class s2 (grp (th s t))
-               end) in *.
+               end t) in *.
     assert (H2b : ext s2 sd).
-    { unfold sd. destruct (vst (th s t)); try apply ext_resolve; apply ext_remove_from_class; apply ext_refl. }
+    { unfold sd. apply ext_ev_cancel. destruct (vst (th s t)); try apply ext_resolve; apply ext_remove_from_class; apply ext_refl. }
     destruct (H2b Hw2) as (Hw2' & L2b & D2b).
     destruct (go P f (KDtor (LThr t)) x2 sd) as [[x3 s3]|] eqn:E3; [|discriminate].
     injection H as <-. exists x2, s2, x3, s3. cbn zeta. fold sd.
@@ -381,6 +390,10 @@ Proof.
   intro H. unfold resolve. destruct (retto (th b w)) as [c|]; [|exact H].
   destruct (rreg (th b c)) as [| |t]; try exact H. destruct (t =? w); [|exact H]. now apply soe_upd.
 Qed.
+Lemma soe_set_evq a b q : same_obj_ends a b -> same_obj_ends a (set_evq b q).
+Proof. intro H. now apply (soe_same a b). Qed.
+Lemma soe_ev_cancel a b w : same_obj_ends a b -> same_obj_ends a (ev_cancel b w).
+Proof. intro H. now apply (soe_same a b). Qed.
 Lemma soe_vm_suspend a b w : same_obj_ends a b -> same_obj_ends a (vm_suspend b w).
 Proof. intro H. unfold vm_suspend. destruct (vst (th b w)); [now apply soe_upd | exact H | exact H]. Qed.
 (* the end lists of a THREAD are another listener's *)
@@ -396,7 +409,7 @@ Qed.
 (* the tasks that run while threads are deleted: no script statement is executed by them *)
 Definition deleting (k : task) : Prop :=
   match k with
-  | KKill _ | KCancelAll _ | KNotifyList _ | KDestroyList _ | KKillList _ | KStartTiming _ _ | KStop _ => True
+  | KKill _ | KCancelAll _ | KCancel0 _ | KNotifyList _ | KDestroyList _ | KKillList _ | KStartTiming _ _ | KStop _ => True
   | KDtor (LThr _) => True
   | KUnreg (LThr _) NE => True
   | KWakeList _ NE => True
@@ -415,7 +428,8 @@ Section EndFrame.
     repeat first
       [ assumption | apply soe_refl | apply soe_vm_suspend | apply soe_resolve | apply soe_upd
       | apply soe_set_cur | apply soe_set_depth | apply soe_remove_from_class
-      | apply soe_tdel_thr | apply soe_tdel_l_thr ].
+      | apply soe_tdel_thr | apply soe_tdel_l_thr | apply soe_set_evq | apply soe_ev_cancel
+      | match goal with |- same_obj_ends _ (match ?v with _ => _ end) => destruct v end ].
 
   Ltac se_step IH :=
     match goal with
@@ -425,6 +439,7 @@ Section EndFrame.
     | |- Se _ (Some (_, _)) => cbn [Se]; soe_solve
     | |- Se _ (go P _ _ _ (match ?v with _ => _ end)) => destruct v
     | |- Se _ (match go P _ _ _ (match ?v with _ => _ end) with _ => _ end) => destruct v
+    | |- Se _ (match go P _ _ _ (ev_cancel (match ?v with _ => _ end) _) with _ => _ end) => destruct v
     | |- Se ?s0 (go P ?f ?k ?x ?e) =>
         let Ha := fresh "Ha" in let Hb := fresh "Hb" in
         assert (Ha : same_obj_ends s0 e) by soe_solve;
@@ -447,19 +462,20 @@ Section EndFrame.
   Lemma Se_go : forall f k x s, deleting k -> Se s (go P f k x s).
   Proof.
     induction f as [|f IH]; intros k x s Hk; [exact I|].
-    destruct k as [t|w|l|l|l|l|l n|l n|w n|w d|w|w|w|w|w i|src n w|src ns w|w v| |w];
+    destruct k as [t|w|w|l|l|l|l|l n|l n|w n|w d|w|w|w|w|w i|src n w|src ns w|w v| |w| |];
       cbn [deleting] in Hk; try contradiction.
-    - cbn [go]. repeat se_step IH.
-    - cbn [go]. repeat se_step IH.
-    - cbn [go]. repeat se_step IH.
-    - destruct l as [o|t]; [contradiction|]. cbn [go]. repeat se_step IH.
-    - cbn [go]. repeat se_step IH.
-    - cbn [go]. repeat se_step IH.
-    - destruct l as [o|t]; [contradiction|]. destruct n; [|contradiction]. cbn [go]. repeat se_step IH.
-    - destruct n; [|contradiction]. cbn [go]. repeat se_step IH.
-    - destruct n; [|contradiction]. cbn [go]. repeat se_step IH.
-    - cbn [go]. repeat se_step IH.
-    - cbn [go]. repeat se_step IH.
+    - cbn [go]; cbv zeta. repeat se_step IH.
+    - cbn [go]; cbv zeta. repeat se_step IH.
+    - cbn [go]; cbv zeta. repeat se_step IH.
+    - cbn [go]; cbv zeta. repeat se_step IH.
+    - destruct l as [o|t]; [contradiction|]. cbn [go]; cbv zeta. repeat se_step IH.
+    - cbn [go]; cbv zeta. repeat se_step IH.
+    - cbn [go]; cbv zeta. repeat se_step IH.
+    - destruct l as [o|t]; [contradiction|]. destruct n; try contradiction. cbn [go]; cbv zeta. repeat se_step IH.
+    - destruct n; try contradiction. cbn [go]; cbv zeta. repeat se_step IH.
+    - destruct n; try contradiction. cbn [go]; cbv zeta. repeat se_step IH.
+    - cbn [go]; cbv zeta. repeat se_step IH.
+    - cbn [go]; cbv zeta. repeat se_step IH.
   Qed.
 
   (* `l notify n` (Listener::Unregister(name)), first half.  The end list of (l, n) is taken out
@@ -490,6 +506,137 @@ Section EndFrame.
     intros o' m Hne. rewrite Hs. unfold s1. cbn [etab set_etab]. apply look_tdel_other. congruence.
   Qed.
 End EndFrame.
+
+
+(* ---------------------------------------------------------------- timeout events *)
+(* no pending event of s' is new with respect to s *)
+Definition sub_ev (s s' : sh) : Prop := forall e, In e (evq s') -> In e (evq s).
+
+Lemma sev_refl s : sub_ev s s.
+Proof. intros e H. exact H. Qed.
+Lemma sev_trans a b c : sub_ev a b -> sub_ev b c -> sub_ev a c.
+Proof. intros H1 H2 e H. apply H1, H2, H. Qed.
+Lemma sev_same a b b' : sub_ev a b -> evq b' = evq b -> sub_ev a b'.
+Proof. intros H E e He. rewrite E in He. now apply H. Qed.
+Lemma sev_upd a b w v : sub_ev a b -> sub_ev a (upd b w v).
+Proof. intro H. now apply (sev_same a b). Qed.
+Lemma sev_set_cur a b c : sub_ev a b -> sub_ev a (set_cur b c).
+Proof. intro H. now apply (sev_same a b). Qed.
+Lemma sev_set_depth a b c : sub_ev a b -> sub_ev a (set_depth b c).
+Proof. intro H. now apply (sev_same a b). Qed.
+Lemma sev_set_etab a b c : sub_ev a b -> sub_ev a (set_etab b c).
+Proof. intro H. now apply (sev_same a b). Qed.
+Lemma sev_remove_from_class a b g : sub_ev a b -> sub_ev a (remove_from_class b g).
+Proof. intro H. now apply (sev_same a b). Qed.
+Lemma sev_resolve a b w v : sub_ev a b -> sub_ev a (resolve b w v).
+Proof.
+  intro H. unfold resolve. destruct (retto (th b w)) as [c|]; [|exact H].
+  destruct (rreg (th b c)) as [| |t]; try exact H. destruct (t =? w); [|exact H]. now apply sev_upd.
+Qed.
+Lemma sev_vm_suspend a b w : sub_ev a b -> sub_ev a (vm_suspend b w).
+Proof. intro H. unfold vm_suspend. destruct (vst (th b w)); [now apply sev_upd | exact H | exact H]. Qed.
+Lemma sev_ev_cancel a b w : sub_ev a b -> sub_ev a (ev_cancel b w).
+Proof. intros H e He. apply H. cbn [ev_cancel evq set_evq] in He. apply filter_In in He. tauto. Qed.
+
+(* CancelEventsOfType / CancelPendingEvents leave no event of the thread *)
+Lemma ev_cancel_none s w e : In e (evq (ev_cancel s w)) -> fst e <> w.
+Proof.
+  cbn [ev_cancel evq set_evq]. intro H. apply filter_In in H. destruct H as [_ H].
+  destruct (N.eqb_spec (fst e) w); [discriminate|assumption].
+Qed.
+
+Section Events.
+  Context {T : Type}.
+  Variable P : prims T.
+
+  Definition Sv (s : sh) (r : option (T * sh)) : Prop :=
+    match r with None => True | Some (_, s') => sub_ev s s' end.
+
+  Ltac sev_solve :=
+    repeat first
+      [ assumption | apply sev_refl | apply sev_vm_suspend | apply sev_resolve | apply sev_upd
+      | apply sev_set_cur | apply sev_set_depth | apply sev_remove_from_class | apply sev_set_etab
+      | apply sev_ev_cancel ].
+
+  Ltac sv_step IH :=
+    match goal with
+    | |- Sv _ None => exact I
+    | |- Sv _ (Some (_, if ?c then _ else _)) => destruct c
+    | |- Sv _ (Some (_, match ?v with _ => _ end)) => destruct v
+    | |- Sv _ (Some (_, _)) => cbn [Sv]; sev_solve
+    | |- Sv _ (go P _ _ _ (match ?v with _ => _ end)) => destruct v
+    | |- Sv _ (match go P _ _ _ (match ?v with _ => _ end) with _ => _ end) => destruct v
+    | |- Sv _ (match go P _ _ _ (ev_cancel (match ?v with _ => _ end) _) with _ => _ end) => destruct v
+    | |- Sv ?s0 (go P ?f ?k ?x ?e) =>
+        let Ha := fresh "Ha" in let Hb := fresh "Hb" in
+        assert (Ha : sub_ev s0 e) by sev_solve;
+        pose proof (IH k x e I) as Hb;
+        destruct (go P f k x e) as [[? ?]|]; [cbn [Sv] in *; exact (sev_trans _ _ _ Ha Hb) | exact I]
+    | |- Sv ?s0 (match go P ?f ?k ?x ?e with _ => _ end) =>
+        let Ha := fresh "Ha" in let Hb := fresh "Hb" in
+        assert (Ha : sub_ev s0 e) by sev_solve;
+        pose proof (IH k x e I) as Hb;
+        destruct (go P f k x e) as [[? ?]|]; [cbn [Sv] in Hb; pose proof (sev_trans _ _ _ Ha Hb); clear Ha Hb | exact I]
+    | |- Sv _ (let '(_, _) := ?e in _) => destruct e as [? ?]
+    | |- Sv _ (match (match ?v with _ => _ end) with _ => _ end) => destruct v
+    | |- Sv _ (match (if ?c then _ else _) with _ => _ end) => destruct c
+    | |- Sv _ (if ?c then _ else _) => destruct c
+    | |- Sv _ (match ?v with _ => _ end) => destruct v
+    end.
+
+  (* deleting threads posts no event *)
+  Lemma Sv_go : forall f k x s, deleting k -> Sv s (go P f k x s).
+  Proof.
+    induction f as [|f IH]; intros k x s Hk; [exact I|].
+    destruct k as [t|w|w|l|l|l|l|l n|l n|w n|w d|w|w|w|w|w i|src n w|src ns w|w v| |w| |];
+      cbn [deleting] in Hk; try contradiction.
+    - cbn [go]; cbv zeta. repeat sv_step IH.
+    - cbn [go]; cbv zeta. repeat sv_step IH.
+    - cbn [go]; cbv zeta. repeat sv_step IH.
+    - cbn [go]; cbv zeta. repeat sv_step IH.
+    - destruct l as [o|t]; [contradiction|]. cbn [go]; cbv zeta. repeat sv_step IH.
+    - cbn [go]; cbv zeta. repeat sv_step IH.
+    - cbn [go]; cbv zeta. repeat sv_step IH.
+    - destruct l as [o|t]; [contradiction|]. destruct n; try contradiction. cbn [go]; cbv zeta. repeat sv_step IH.
+    - destruct n; try contradiction. cbn [go]; cbv zeta. repeat sv_step IH.
+    - destruct n; try contradiction. cbn [go]; cbv zeta. repeat sv_step IH.
+    - cbn [go]; cbv zeta. repeat sv_step IH.
+    - cbn [go]; cbv zeta. repeat sv_step IH.
+  Qed.
+
+  (* every StoppedWaitFor of a live thread - the wake-up by a notify of any name, the release by
+     a dead callee, the firing timeout itself - first cancels the thread's pending timeout
+     events: the rest of it runs in a state without any *)
+  Theorem a_wake_up_cancels_the_pending_timeouts f w n x s :
+    alive (th s w) = true ->
+    go P (S f) (KStoppedWaitFor w n) x s =
+    (let s' := ev_cancel s w in
+     if is_waiting (tst (th s w)) then
+       match n with
+       | NE => go P f (KStartTiming w 0) x s'
+       | _ => match vst (th s w) with
+              | VIdling => go P f (KExecute w) x s'
+              | VSuspended => Some (x, upd s' w (w_vst (th s w) VRunning))
+              | VRunning => Some (x, s')
+              end
+       end
+     else Some (x, s')).
+  Proof. intro H. cbn [go]. rewrite H. reflexivity. Qed.
+
+  (* a deleted thread leaves no timeout event behind *)
+  Theorem a_deleted_thread_leaves_no_timeout f t x s x' s' :
+    WF s -> alive (th s t) = true -> go P (S f) (KKill t) x s = Some (x', s') ->
+    forall e, In e (evq s') -> fst e <> t.
+  Proof.
+    intros Hw Ha H e He.
+    destruct (delete_runs_the_destructor_on_a_destroyed_thread P f t x s _ Hw Ha H) as (x2 & s2 & x3 & s3 & Hd).
+    cbv zeta in Hd. destruct Hd as (_ & _ & E3 & Er). injection Er as -> ->.
+    match type of E3 with go P f ?k x2 ?sd = _ => pose proof (Sv_go f k x2 sd I) as Hs end.
+    rewrite E3 in Hs. cbn [Sv] in Hs.
+    assert (He3 : In e (evq s3)) by (destruct (opt_eqb (cur s3) t); exact He).
+    apply Hs in He3. now apply ev_cancel_none in He3.
+  Qed.
+End Events.
 
 Lemma WF_init : WF sh_init.
 Proof. intros t H. unfold th, sh_init in H. cbn [thr] in H. rewrite get_empty in H. discriminate. Qed.
